@@ -15,16 +15,22 @@
                                                                 is the GenDecl of the one spec looked
                                                                 for: at most one entry matches
                                                                 (lookup_first, C14_lookup_first)
-   gencommon/imports.go   ImportHandler.UseName  ih.imports    (added by fix 27a8c65) sets the inUse
-                                                                flag of every entry whose alias equals
-                                                                the given name: a conjunction of
-                                                                idempotent flag writes, no output is
-                                                                built in iteration order; the result
-                                                                list is produced by GetActive, which
-                                                                sorts (now by PkgPath, then Alias)
-   gencommon/imports.go   ImportHandler.GetActive ih.imports   filter inUse, then sort.Slice by
-                                                                PkgPath; paths are the map's keys
-                                                                (get_active, C14_imports)
+   gencommon/imports.go   ImportHandler.UseName  ih.imports    (fix 27a8c65) sets the inUse flag of
+                                                                every entry whose alias equals the
+                                                                given name: each write replaces one
+                                                                entry in place and keys are distinct,
+                                                                so the resulting map is the same in
+                                                                every order (use_name, use_name_canon,
+                                                                C14_use_name); the bool result is an
+                                                                existsb (use_name_found)
+   gencommon/imports.go   ImportHandler.GetActive ih.imports   in-use map entries (map order) ++ in-use
+                                                                shadowed specs (a slice, source order),
+                                                                then sort.Slice by (PkgPath, Alias);
+                                                                entries with equal (path, alias) are
+                                                                equal — an alias names one import spec,
+                                                                only `_` can repeat and then the specs
+                                                                coincide (get_active, C14_imports,
+                                                                C14_imports_nodup)
    gencommon/interface.go allpkgs.findPKgByName   pkg.Imports   returns at the entry whose key
                                                                 equals pkgName: keys are unique
                                                                 (lookup_first, C14_lookup_first)
